@@ -116,7 +116,9 @@ pub fn generate(rng: &mut Rng, property: &str, deep: bool) -> BScn {
         let insert_at = rng.range(1, 6) as usize;
         let mut touch_at = Vec::new();
         for _ in 0..rng.range(1, 3) {
-            touch_at.push(insert_at + rng.range(0, 10) as usize);
+            // (later than the grace window in which the animator may still be taking over the
+            // selector's key)
+            touch_at.push(insert_at + 4 + rng.range(0, 10) as usize);
         }
         touch_at.sort();
         touch_at.dedup();
